@@ -25,6 +25,14 @@
 (*   Routes  all routes of one request give the same numbers, and those that  *)
 (*           return a unit the same unit; this includes A->A'(copy)->B (in    *)
 (*           place on the copy) and A->B asked again of the source afterwards *)
+(* A unit-system request may name the system (string or UnitSystem object) *)
+(* or leave the argument out: the default means the unit system the          *)
+(* quantity's registry is configured with (MKS when none was configured).    *)
+(* When that is the named system of the case, the default-argument forms     *)
+(* belong to the same Routes/Inv family as the named forms (fam base/bback); *)
+(* otherwise they are a request of their own (fam based/dback), which must   *)
+(* agree among themselves.  Which of the two applies is decided by the       *)
+(* specification (DefaultIsNamed), case by case, before the replay.           *)
 (* A route may name its target as a Unit object, as a string (to_name:     *)
 (* resolved in the quantity's registry) or - for unit-system requests - as   *)
 (* the expression in_base arrived at, rebuilt in the quantity's registry      *)
@@ -42,7 +50,7 @@ UA(o) == PoolU[o.a]
 UB(o) == PoolU[o.b]
 UC(o) == PoolU[o.c]
 \* LET-bound: TLC passes operator arguments by name, a LET value is computed once
-Ev(o) == LET A == PoolU[o.a] B == PoolU[o.b] C == PoolU[o.c] IN CaseEval(o.kind, A, B, C, o.sysi, o.dt, o.xs)
+Ev(o) == LET A == PoolU[o.a] B == PoolU[o.b] C == PoolU[o.c] IN CaseEval(o.kind, A, B, C, o.sysi, o.cfgi, o.dt, o.xs)
 X(o) == InVec(o.dt, o.xs)
 
 ShapeOk(o, r) == Len(r.v) = Len(o.xs)
@@ -53,11 +61,15 @@ InFam(o, S, f) == {j \in S : o.res[j].fam = f}
 First(S) == CHOOSE j \in S : \A k \in S : j <= k
 
 \* get_conversion_factor applied by hand has no EM route: refusing across dimensions is not a disagreement
-Refusable(o, r) == /\ r.rt = "hand"
+Refusable(o, r) == /\ r.rt \in {"hand", "hand_default"}
                    /\ LET A == PoolU[o.a] IN
                       \/ r.fam = "ab" /\ A.dim # PoolU[o.b].dim
                       \/ r.fam = "ac" /\ A.dim # PoolU[o.c].dim
-                      \/ r.fam = "base" /\ A.dim \in EmDims
+                      \/ r.fam \in {"base", "based"} /\ A.dim \in EmDims
+
+\* the unit-system request a family belongs to: named system (base, back from it: bback) or - when the default
+\* argument resolves to another system than the named one - the registry's configured system (based, dback)
+ReqFam(f) == IF f \in {"base", "bback"} THEN "base" ELSE "based"
 
 Fail(n, o, j, clause) == [tag |-> "P-FAIL", i |-> n, clause |-> clause, fam |-> o.res[j].fam, rt |-> o.res[j].rt,
                        exc |-> o.res[j].exc, cls |-> ClsOf(UA(o)), j |-> j]
@@ -69,14 +81,14 @@ PFails(n, o, ev) ==
       \* a supported conversion request returns; a unit-system request may be refused (UnitsNotReducible: the system
       \* cannot express the dimension) but then by every route
       total == {j \in DOMAIN o.res : /\ o.res[j].k # "ok" /\ ~Refusable(o, o.res[j])
-                                      /\ \/ o.res[j].fam \notin {"base", "bback"}
-                                         \/ \E k \in DOMAIN o.res : o.res[k].fam = "base" /\ o.res[k].k = "ok"}
+                                      /\ \/ o.res[j].fam \notin {"base", "bback", "based", "dback"}
+                                         \/ \E k \in DOMAIN o.res : o.res[k].fam = ReqFam(o.res[j].fam) /\ o.res[k].k = "ok"}
       shape == {j \in DOMAIN o.res : o.res[j].k = "ok" /\ ~(ShapeOk(o, o.res[j]) /\ RefsOk(cd, o.res[j]))}
       idto == {k \in InFam(o, G, "id") : o.res[k].rt = "to"}
       id == {j \in InFam(o, G, "id") : Nums(cd, o.res[j]) # x}
             \cup {j \in InFam(o, G, "src") : \/ Nums(cd, o.res[j]) # x
                                               \/ \E k \in idto : o.res[k].u # o.res[j].u}
-      inv == {j \in InFam(o, G, "aba") \cup InFam(o, G, "bback") : Nums(cd, o.res[j]) # x}
+      inv == {j \in InFam(o, G, "aba") \cup InFam(o, G, "bback") \cup InFam(o, G, "dback") : Nums(cd, o.res[j]) # x}
       comp == {j \in InFam(o, G, "abc") :
                  \E k \in InFam(o, G, "ac") : /\ o.res[k].rt = (IF o.res[j].rt = "mixed" THEN "to" ELSE o.res[j].rt)
                                               /\ \/ Nums(cd, o.res[k]) # Nums(cd, o.res[j])
@@ -88,13 +100,14 @@ PFails(n, o, ev) ==
                            SU == {j \in S : o.res[j].u # ""} IN
                        {j \in S : Nums(cd, o.res[j]) # Nums(cd, o.res[ref])}
                        \cup (IF SU = {} THEN {} ELSE {j \in SU : o.res[j].u # o.res[First(SU)].u})
-                  : f \in {"id", "ab", "ac", "base"}} IN
+                  : f \in {"id", "ab", "ac", "base", "based"}} IN
   {Fail(n, o, j, "Total") : j \in total} \cup {Fail(n, o, j, "Shape") : j \in shape} \cup {Fail(n, o, j, "Id") : j \in id}
   \cup {Fail(n, o, j, "Inv") : j \in inv} \cup {Fail(n, o, j, "Comp") : j \in comp} \cup {Fail(n, o, j, "Routes") : j \in routes}
 
 \* T: the transcription's prediction for each route (exact cases: numbers; all cases: return/refuse, requested unit)
 ExpectedIdx(r) == CASE r.fam = "id" -> 1 [] r.fam = "src" -> 1 [] r.fam = "aba" -> 2 [] r.fam = "bback" -> 2 [] r.fam = "ab" -> 1
                     [] r.fam = "abc" -> 1 [] r.fam = "ac" -> 2 [] r.fam = "base" -> 1
+                    [] r.fam = "based" -> 1 [] r.fam = "dback" -> 1
 ExpectedDt(o, r) == IF r.rt = "to_value" THEN ToValueDt(o.dt, o.sh)
                     ELSE IF r.rt \in {"to", "in_units"} /\ r.fam \in {"id", "ab", "ac"} THEN CopyDt(o.dt)
                     ELSE IF r.rt = "convert" /\ r.fam \in {"id", "ab", "ac"} THEN InPlaceDt(o.dt) ELSE NormDt(r.dt)
@@ -102,22 +115,27 @@ TFails(n, o, ev) ==
   LET cd == ev.cd
       \* no prediction for unit-system requests (refusals are the unit system's business) nor for to_value of a
       \* complex quantity (float() of a complex number: recorded finding)
-      kbad == {j \in DOMAIN o.res : /\ o.res[j].fam \notin {"base", "bback"}
+      kbad == {j \in DOMAIN o.res : /\ o.res[j].fam \notin {"base", "bback", "based", "dback"}
                                      /\ ~(o.res[j].rt = "to_value" /\ o.sh = "scalar" /\ IsComplex(o.dt))
                                      /\ (o.res[j].k = "ok") = Refusable(o, o.res[j])}
       G == Good(o, cd)
       nbad == IF ~ev.exact THEN {}
-              ELSE {j \in G : \/ ExpectedIdx(o.res[j]) > Len(cd[o.res[j].g])
-                              \/ Nums(cd, o.res[j]) # AsObs(cd[o.res[j].g][ExpectedIdx(o.res[j])])}
+              ELSE {j \in G : /\ ~(o.res[j].fam = "based" /\ Len(cd.C) = 0)   \* no prediction for that target
+                              /\ \/ ExpectedIdx(o.res[j]) > Len(cd[o.res[j].g])
+                                 \/ Nums(cd, o.res[j]) # AsObs(cd[o.res[j].g][ExpectedIdx(o.res[j])])}
       ubad == {j \in G : o.res[j].u # "" /\ o.kind = "conv" /\ o.res[j].u # o.ustr[o.res[j].g]}
       dbad == {j \in G : /\ ~(o.res[j].rt = "to_value" /\ o.sh = "scalar" /\ IsComplex(o.dt))
                           /\ NormDt(o.res[j].dt) # ExpectedDt(o, o.res[j])}
-      xbad == IF ev.exact = o.exact THEN {} ELSE {0} IN
+      xbad == IF ev.exact = o.exact THEN {} ELSE {0}
+      \* the default-argument forms were filed under the request the specification says they express
+      fbad == IF o.kind # "base" THEN {}
+              ELSE {j \in DOMAIN o.res : o.res[j].fam \in {"based", "dback"} /\ DefaultIsNamed(o.sysi, o.cfgi)} IN
   {[tag |-> "T-FAIL", i |-> n, what |-> "return", fam |-> o.res[j].fam, rt |-> o.res[j].rt] : j \in kbad}
   \cup {[tag |-> "T-FAIL", i |-> n, what |-> "numbers", fam |-> o.res[j].fam, rt |-> o.res[j].rt] : j \in nbad}
   \cup {[tag |-> "T-FAIL", i |-> n, what |-> "unit", fam |-> o.res[j].fam, rt |-> o.res[j].rt] : j \in ubad}
   \cup {[tag |-> "T-FAIL", i |-> n, what |-> "dtype", fam |-> o.res[j].fam, rt |-> o.res[j].rt] : j \in dbad}
   \cup {[tag |-> "T-FAIL", i |-> n, what |-> "exactness", fam |-> "", rt |-> ""] : j \in xbad}
+  \cup {[tag |-> "T-FAIL", i |-> n, what |-> "family", fam |-> o.res[j].fam, rt |-> o.res[j].rt] : j \in fbad}
 
 Report(n, o) == LET ev == Ev(o) IN
                 /\ \A f \in PFails(n, o, ev) : PrintT(ToJson(f))
